@@ -245,8 +245,30 @@ void setVerdict(const std::string &key, const std::string &msg)
     snprintf(verdict->msg, sizeof verdict->msg, "%s", msg.c_str());
 }
 
-// in the forked process: rebuild the index from `im` and judge the result
+struct Session {
+    RefCount<Rock::SwapDir> store;
+    Rock::SwapDirRr *rr = nullptr;
+};
+
+void rebuildAndJudgeInner(const Image &im, Session &ses);
+
+// in a forked process: rebuild the index from `im`, judge the result, and undo the set-up so that the
+// same process can take the next image (a batch worker rebuilds many images)
 void rebuildAndJudge(const Image &im)
+{
+    Session ses;
+    rebuildAndJudgeInner(im, ses);
+    // tear down like TestRock::tearDown(); the SwapDir object itself stays alive (it holds a
+    // reference to itself since init()), only its registration goes away
+    AsyncCallQueue::Instance().fire();
+    EventScheduler::GetInstance()->clean();
+    ses.store = nullptr;
+    free_cachedir(&Config.cacheSwap);
+    delete ses.rr;            // unlinks the shared segments
+    StoreController::store_dirs_rebuilding = 1;   // its value at process start
+}
+
+void rebuildAndJudgeInner(const Image &im, Session &ses)
 {
     const std::string file = workDir + "/rock";
     {
@@ -266,7 +288,8 @@ void rebuildAndJudge(const Image &im)
         for (int i = 0; i < im.n && f; ++i) { unsigned char b[40]; fseek(f, HeaderSize + i * SlotSize, SEEK_SET); size_t got = fread(b, 1, 40, f); fprintf(stderr, "slot %d (%zu):", i, got); for (size_t k = 0; k < got; ++k) fprintf(stderr, " %02x", b[k]); fprintf(stderr, "\n"); }
         if (f) fclose(f);
     }
-    RefCount<Rock::SwapDir> store = new Rock::SwapDir();
+    ses.store = new Rock::SwapDir();
+    RefCount<Rock::SwapDir> &store = ses.store;
     allocate_new_swapdir(Config.cacheSwap);
     Config.cacheSwap.swapDirs[Config.cacheSwap.n_configured] = store.getRaw();
     ++Config.cacheSwap.n_configured;
@@ -279,8 +302,8 @@ void rebuildAndJudge(const Image &im)
     store_maxobjsize = 1024 * 1024 * 2;
 
     stamp("parsed");
-    Rock::SwapDirRr *rr = new Rock::SwapDirRr;
-    rr->useConfig();
+    ses.rr = new Rock::SwapDirRr;
+    ses.rr->useConfig();
     stamp("segments created");
 
     Store::Root().init();
@@ -340,10 +363,12 @@ void rebuildAndJudge(const Image &im)
         uint64_t sum = 0;
         int steps = 0;
         std::string chain;
-        // every chain slot must be, on disk, a slot of the same entry as the chain's first slot
-        Key diskKey = akey;
-        if (a->start >= 0 && a->start < n && !im.slots[a->start].blank) { diskKey.k[0] = im.slots[a->start].h.key[0]; diskKey.k[1] = im.slots[a->start].h.key[1]; }
-        if (!(diskKey == akey)) ++verdict->anchorKeyDiffers;
+        // The entry's identity is the key in its metadata (the anchor key).  Every chain slot behind the
+        // first must carry that key in its cell header; the first slot's cell key is not judged (a wrong
+        // one only misplaces the anchor) but counted.
+        const Ipc::StoreMapSliceId firstSid = a->start;
+        if (firstSid >= 0 && firstSid < n && !im.slots[firstSid].blank &&
+                !(Key{{im.slots[firstSid].h.key[0], im.slots[firstSid].h.key[1]}} == akey)) ++verdict->anchorKeyDiffers;
         for (Ipc::StoreMapSliceId sid = a->start; sid >= 0; ) {
             if (sid >= n) { setVerdict("chain:slot-out-of-range", who + " has slot " + std::to_string(sid) + " in its chain" + chain); break; }
             if (++steps > n) { setVerdict("chain:cyclic", who + " has a cyclic chain" + chain); break; }
@@ -361,7 +386,7 @@ void rebuildAndJudge(const Image &im)
             const bool present = !disk.blank && at + (long)sizeof(Rock::DbCellHeader) <= fileLen;
             if (!present)
                 setVerdict("chain:slot-blank-or-cut-off-on-disk", who + " uses slot " + std::to_string(sid) + ", which is blank or truncated on disk; chain:" + chain);
-            else if (!(Key{{disk.h.key[0], disk.h.key[1]}} == diskKey))
+            else if (sid != firstSid && !(Key{{disk.h.key[0], disk.h.key[1]}} == akey))
                 setVerdict("chain:slot-of-another-key", who + " uses slot " + std::to_string(sid) + ", whose on-disk header carries key " + std::to_string(disk.h.key[0]) + "; chain:" + chain);
             else if (disk.h.payloadSize != sz)
                 setVerdict("chain:slice-size-differs-from-disk", who + " slot " + std::to_string(sid) + " slice size " + std::to_string(sz) + " != on-disk payloadSize " + std::to_string(disk.h.payloadSize));
@@ -378,7 +403,7 @@ void rebuildAndJudge(const Image &im)
         if (owner[s] < 0 && !isFree[s]) ++verdict->leaked;
 }
 
-struct RunStats { uint64_t images = 0, died = 0, withReadable = 0, withLeak = 0, withWriteLocked = 0, refused = 0, keyDiffers = 0; } rs;
+struct RunStats { uint64_t images = 0, died = 0, withReadable = 0, withLeak = 0, withWriteLocked = 0, refused = 0, keyDiffers = 0, recheckedAlone = 0; } rs;
 
 std::map<std::string, int> reported;
 void failCapped(const std::string &key, const std::string &msg)
@@ -432,18 +457,54 @@ std::string firstInterestingLine(const std::string &errFile)
     return out;
 }
 
-// returns the class of the outcome (for outcome counters)
-void runImage(const Image &im, const std::string &what)
+void reportDeath(int st, const std::string &errFile, const std::string &what)
 {
-    ++rs.images;
+    if (fileContains(errFile, "cannot read db header") || fileContains(errFile, "cannot open db")) {
+        // Rock::Rebuild::failure(): the db file has no complete 16 KB db header; Squid refuses to start
+        // with such a cache_dir by design (same as a missing file) -- counted, not judged
+        ++rs.refused;
+        V::outcome("refused:db-header-unreadable");
+        return;
+    }
+    ++rs.died;
+    std::string how;
+    if (WIFSIGNALED(st)) how = WTERMSIG(st) == SIGALRM ? "hang (killed after 30 s)" : "signal " + std::to_string(WTERMSIG(st));
+    else how = "exit status " + std::to_string(WEXITSTATUS(st));
+    const std::string why = firstInterestingLine(errFile);
+    const std::string key = WIFSIGNALED(st) && WTERMSIG(st) == SIGALRM ? std::string("rebuild-hangs") : "rebuild-dies: " + (why.empty() ? how : why);
+    failCapped(key, "the rebuilding process died (" + how + ") on image " + what);
+    V::outcome("died");
+}
+
+void tally(const Verdict &v)
+{
+    if (v.readable) ++rs.withReadable;
+    if (v.leaked) ++rs.withLeak;
+    if (v.writeLocked) ++rs.withWriteLocked;
+    if (v.anchorKeyDiffers) ++rs.keyDiffers;
+    V::outcome("rebuilt:" + std::to_string(v.readable) + "-readable" + (v.leaked ? "+leaked-slots" : "") + (v.writeLocked ? "+write-locked-anchor" : ""));
+}
+
+void redirectOutput(const std::string &errFile)
+{
+    const int efd = open(errFile.c_str(), O_WRONLY | O_CREAT | O_TRUNC, 0600);
+    if (efd >= 0) { dup2(efd, 2); dup2(efd, 1); close(efd); }
+}
+
+Verdict *singleVerdict = nullptr;
+
+// one image in a process of its own; reports violations; returns true if the image was judged clean
+bool runImage(const Image &im, const std::string &what, bool count = true)
+{
+    if (count) ++rs.images;
+    verdict = singleVerdict;
     memset(verdict, 0, sizeof(*verdict));
     const std::string errFile = workDir + "/stderr.txt";
     fflush(stdout); fflush(stderr);
     const pid_t pid = fork();
-    if (pid < 0) { V::fail("fork failed"); return; }
+    if (pid < 0) { V::fail("fork failed"); return false; }
     if (pid == 0) {
-        const int efd = open(errFile.c_str(), O_WRONLY | O_CREAT | O_TRUNC, 0600);
-        if (efd >= 0) { dup2(efd, 2); dup2(efd, 1); close(efd); }
+        redirectOutput(errFile);
         alarm(30);
         rebuildAndJudge(im);
         verdict->done = 1;
@@ -455,34 +516,75 @@ void runImage(const Image &im, const std::string &what)
         fprintf(stderr, "---- image %s: done=%d readable=%d leaked=%d free=%d key=%s\n", what.c_str(), verdict->done, verdict->readable, verdict->leaked, verdict->freeSlots, verdict->key);
         if (FILE *f = fopen(errFile.c_str(), "r")) { char b[512]; while (fgets(b, sizeof b, f)) fputs(b, stderr); fclose(f); }
     }
-    if (!verdict->done) {
-        ++rs.died;
-        std::string how;
-        if (WIFSIGNALED(st)) how = WTERMSIG(st) == SIGALRM ? "hang (killed after 30 s)" : "signal " + std::to_string(WTERMSIG(st));
-        else how = "exit status " + std::to_string(WEXITSTATUS(st));
-        std::string why = firstInterestingLine(errFile);
-        if (fileContains(errFile, "cannot read db header") || fileContains(errFile, "cannot open db")) {
-            // Rock::Rebuild::failure(): the db file has no complete 16 KB db header; Squid refuses to start
-            // with such a cache_dir by design (same as a missing file) -- counted, not judged
-            ++rs.refused;
-            V::outcome("refused:db-header-unreadable");
-            return;
-        }
-        const std::string key = WIFSIGNALED(st) && WTERMSIG(st) == SIGALRM ? std::string("rebuild-hangs") : "rebuild-dies: " + (why.empty() ? how : why);
-        failCapped(key, "the rebuilding process died (" + how + ") on image " + what);
-        V::outcome("died");
-        return;
-    }
+    if (!verdict->done) { reportDeath(st, errFile, what); return false; }
     if (verdict->key[0]) {
         failCapped(verdict->key, std::string(verdict->msg) + " | image " + what);
         V::outcome(std::string("violation:") + verdict->key);
-        return;
+        return false;
     }
-    if (verdict->readable) ++rs.withReadable;
-    if (verdict->leaked) ++rs.withLeak;
-    if (verdict->writeLocked) ++rs.withWriteLocked;
-    if (verdict->anchorKeyDiffers) ++rs.keyDiffers;
-    V::outcome("rebuilt:" + std::to_string(verdict->readable) + "-readable" + (verdict->leaked ? "+leaked-slots" : "") + (verdict->writeLocked ? "+write-locked-anchor" : ""));
+    tally(*verdict);
+    return true;
+}
+
+// Many images, one worker process per batch: the worker rebuilds image after image (set-up and
+// tear-down as in tests/testRock.cc); if it dies, the image it was working on is charged and a new
+// worker continues behind it.  Whatever a worker judges to be a violation is re-run in a process of
+// its own before it is reported, so state carried over from earlier images cannot cause a report.
+struct Job { Image im; std::string what; };
+const int BatchMax = 48;
+Verdict *batchVerdicts = nullptr;
+volatile int *batchCursor = nullptr;
+
+void runBatch(std::vector<Job> &jobs)
+{
+    const std::string errFile = workDir + "/stderr.txt";
+    for (size_t base = 0; base < jobs.size(); base += BatchMax) {
+        const int count = (int)std::min<size_t>(BatchMax, jobs.size() - base);
+        memset(batchVerdicts, 0, sizeof(Verdict) * BatchMax);
+        std::vector<bool> died(count, false);
+        int start = 0;
+        while (start < count) {
+            *batchCursor = start;
+            fflush(stdout); fflush(stderr);
+            const pid_t pid = fork();
+            if (pid < 0) { V::fail("fork failed"); return; }
+            if (pid == 0) {
+                redirectOutput(errFile);
+                for (int i = start; i < count; ++i) {
+                    *batchCursor = i;
+                    if (ftruncate(2, 0) == 0) lseek(2, 0, SEEK_SET);
+                    alarm(30);
+                    verdict = &batchVerdicts[i];
+                    rebuildAndJudge(jobs[base + i].im);
+                    verdict->done = 1;
+                }
+                _exit(0);
+            }
+            int st = 0;
+            waitpid(pid, &st, 0);
+            int next = count;
+            for (int i = start; i < count; ++i) if (!batchVerdicts[i].done) { next = i; break; }
+            if (next >= count) break;
+            // the worker died while rebuilding image `next`
+            ++rs.images;
+            died[next] = true;
+            reportDeath(st, errFile, jobs[base + next].what);
+            start = next + 1;
+        }
+        for (int i = 0; i < count; ++i) {
+            if (died[i]) continue;
+            const Verdict &v = batchVerdicts[i];
+            if (v.key[0]) {
+                ++rs.recheckedAlone;
+                if (runImage(jobs[base + i].im, jobs[base + i].what))      // counts the image, reports if it reproduces
+                    failCapped("harness:violation-seen-only-inside-a-batch", std::string(v.key) + ": " + v.msg + " | image " + jobs[base + i].what);
+                continue;
+            }
+            ++rs.images;
+            tally(v);
+        }
+    }
+    jobs.clear();
 }
 
 // ---------------------------------------------------------------- enumeration
@@ -564,7 +666,10 @@ void body(V::Ctx &ctx)
     static char full[MAXPATHLEN];
     if (!realpath(dir, full)) { V::fail("realpath failed"); return; }
     workDir = full;
-    verdict = (Verdict *)mmap(nullptr, sizeof(Verdict), PROT_READ | PROT_WRITE, MAP_SHARED | MAP_ANONYMOUS, -1, 0);
+    char *shared = (char *)mmap(nullptr, sizeof(Verdict) * (BatchMax + 1) + 64, PROT_READ | PROT_WRITE, MAP_SHARED | MAP_ANONYMOUS, -1, 0);
+    singleVerdict = verdict = (Verdict *)shared;
+    batchVerdicts = (Verdict *)(shared + sizeof(Verdict));
+    batchCursor = (volatile int *)(shared + sizeof(Verdict) * (BatchMax + 1));
     startup();
     if (getenv("C57_DEBUG")) {
         if (FILE *f = fopen("/proc/self/status", "r")) { char b[256]; while (fgets(b, sizeof b, f)) if (!strncmp(b, "VmRSS", 5) || !strncmp(b, "VmPTE", 5) || !strncmp(b, "VmSize", 6)) fputs(b, stderr); fclose(f); }
@@ -592,12 +697,13 @@ void body(V::Ctx &ctx)
                 if (verdict->done && !verdict->key[0] && verdict->readable != (int)es.size())
                     V::failKey("harness:valid-base-image-not-fully-indexed", lname + ": " + std::to_string(verdict->readable) + " readable entries instead of " + std::to_string(es.size()));
                 else V::count("base_images_fully_indexed");
+                std::vector<Job> jobs;
                 for (const Dev &d : devs) {
-                    if (pastDeadline()) break;
                     Image im = base;
                     if (!applyDev(im, d)) continue;
-                    runImage(im, lname + " + " + d.name);
+                    jobs.push_back({im, lname + " + " + d.name});
                 }
+                if (!pastDeadline()) runBatch(jobs);
                 V::end_case();
             } else {
                 // two deviations: one case per (layout, first deviation); header-field deviations only as the second one
@@ -605,22 +711,24 @@ void body(V::Ctx &ctx)
                 for (size_t i = 0; i < devs.size(); ++i) {
                     if (!V::begin_case(lname + " + " + devs[i].name + " | + every second deviation")) continue;
                     Image one = base;
+                    std::vector<Job> jobs;
                     if (applyDev(one, devs[i])) {
                         for (size_t j = 0; j < second.size(); ++j) {
-                            if (pastDeadline()) break;
                             if (devs[i].kind == Dev::Field && second[j].slot == devs[i].slot && second[j].field == devs[i].field) continue;
                             if (devs[i].kind == Dev::Field && (second[j].slot < devs[i].slot || (second[j].slot == devs[i].slot && second[j].field < devs[i].field))) continue; // unordered pairs once
                             Image two = one;
                             if (!applyDev(two, second[j])) continue;
-                            runImage(two, lname + " + " + devs[i].name + " + " + second[j].name);
+                            jobs.push_back({two, lname + " + " + devs[i].name + " + " + second[j].name});
                         }
                     }
+                    if (!pastDeadline()) runBatch(jobs);
                     V::end_case();
                 }
             }
         }
     }
     V::count("images_rebuilt", rs.images);
+    V::count("suspects_rerun_in_a_process_of_their_own", rs.recheckedAlone);
     V::count("images_where_the_process_died", rs.died);
     V::count("images_with_readable_entries", rs.withReadable);
     V::count("images_leaving_leaked_slots(observation)", rs.withLeak);
